@@ -104,3 +104,56 @@ Theorem call_type_args_printed_iff_not_inferable : forall f ta ci hr b i cr,
   paren (joins (T ", ") (if hr then tl cr else cr)).
 Proof. exact func_call_text_spec. Qed.
 Print Assumptions call_type_args_printed_iff_not_inferable.
+
+(* modifiers, bounds, inheritance clauses: the headers the declarations are printed with *)
+Theorem field_modifiers : forall name ft fin co ov cs s,
+  children_res (visit (PN (KField name ft fin co ov) cs) s) =
+  (T (if co then "open " else "") ++ T (if ov then "override " else "") ++
+   T (if fin then "val " else "var ") ++ [Decl DField name] ++ T ": " ++ T (type_name ft))
+  :: children_res s.
+Proof. exact visit_field_lem. Qed.
+Print Assumptions field_modifiers.
+
+Theorem type_parameter_variance_and_bound : forall name v b cs s,
+  children_res (visit (PN (KTypeParam name v b) cs) s) =
+  (T (variance_str v) ++ T (if Nat.eqb v 0 then "" else " ") ++ [Decl DTypeParam name] ++ T ": " ++
+   T (match b with Some t => type_name t | None => "Any" end))
+  :: children_res s.
+Proof. exact visit_type_param_lem. Qed.
+Print Assumptions type_parameter_variance_and_bound.
+
+Theorem class_decl_shape : forall name ct fin nf ns nfn cs s,
+  exists cr,
+    children_res (visit (PN (KClass name ct fin nf ns nfn) cs) s) =
+    class_text name ct fin nf ns nfn (sam_decl (context s) name) (ident s) cr :: children_res s.
+Proof. exact visit_class_lem. Qed.
+Print Assumptions class_decl_shape.
+
+(* "open" iff not final, not an interface (and not a SAM); then the name, the type parameters,
+   the constructor fields, ": " and the supertypes iff there are superclasses, the members *)
+Theorem class_header : forall name ct fin nf ns nfn sam old cr,
+  class_text name ct fin nf ns nfn sam old cr =
+  let fields := firstn nf cr in
+  let supers := firstn ns (skipn nf cr) in
+  let funcs := firstn nfn (skipn (nf + ns) cr) in
+  let tparams := joins (T ", ") (skipn (nf + ns + nfn) cr) in
+  (T (spaces old) ++ T (if sam then "fun " else "") ++
+   T (if negb fin && negb (Nat.eqb ct 1) && negb sam then "open " else "") ++
+   T (if sam then "interface" else class_prefix ct) ++ T " " ++ [Decl DClass name]) ++
+  (if negb (segs_empty tparams) then T "<" ++ tparams ++ T ">" else []) ++
+  (if nonempty fields then paren (joins (T ", ") fields) else []) ++
+  (if nonempty supers then T ": " ++ joins (T ", ") supers else []) ++
+  (if nonempty funcs
+   then T " " ++ brace (T nl ++ joins (T (nl ++ nl)%string) funcs ++ T nl ++ T (spaces old))
+   else []).
+Proof. exact class_text_spec. Qed.
+Print Assumptions class_header.
+
+(* "open" iff not final, "override" iff override, "abstract" iff there is no body *)
+Theorem func_modifiers : forall name rt inf fin ov hb np ntp ie old cr,
+  exists rest,
+    func_decl_text name rt inf fin ov hb np ntp ie old cr =
+    T (spaces old) ++ T (if fin then "" else "open ") ++ T (if ov then "override " else "") ++
+    T (if hb then "" else "abstract ") ++ T "fun " ++ rest.
+Proof. exact func_decl_head_lem. Qed.
+Print Assumptions func_modifiers.
